@@ -69,7 +69,14 @@ fn apply<E: Enf>(rt: &tokio::runtime::Runtime, e: &mut E, op: &WOp) {
     }
 }
 
-fn run<E: Enf>(mk: impl Fn(&tokio::runtime::Runtime) -> E, threads: usize, writer: bool, handle: bool, seed: u64, iters: usize) -> String {
+static HUNG: AtomicBool = AtomicBool::new(false);
+
+fn run<E: Enf>(mk: impl Fn(&tokio::runtime::Runtime) -> E, threads: usize, writer: bool, handle_mode: u8, seed: u64, iters: usize) -> String {
+    // a hung case leaves blocked threads behind; later cases of this process are not meaningful
+    if HUNG.load(Ordering::SeqCst) {
+        return "SKIPPED-after-HANG".to_string();
+    }
+    let handle = handle_mode > 0;
     let rt = crate::eng::rt();
     let reqs = requests();
     // serial oracle: decisions for every request after every prefix of the history
@@ -143,6 +150,18 @@ fn run<E: Enf>(mk: impl Fn(&tokio::runtime::Runtime) -> E, threads: usize, write
                 let _ = g.has_link("alice", "admin", None);
                 let _ = g.get_roles("carol", None);
                 drop(g);
+                if handle_mode == 2 {
+                    // writes through the handle on names no request and no stored rule mentions:
+                    // decisions are unaffected, but a writer now queues on the role-manager lock
+                    {
+                        let mut w = rm.write();
+                        w.add_link("zz_user", "zz_role", None);
+                    }
+                    {
+                        let mut w = rm.write();
+                        let _ = w.delete_link("zz_user", "zz_role", None);
+                    }
+                }
                 n += 1;
                 if n % 64 == 0 {
                     std::thread::yield_now();
@@ -151,7 +170,7 @@ fn run<E: Enf>(mk: impl Fn(&tokio::runtime::Runtime) -> E, threads: usize, write
         }));
     }
     // watchdog
-    let deadline = Instant::now() + Duration::from_secs(60);
+    let deadline = Instant::now() + Duration::from_secs(25);
     let n = hs.len();
     let mut joined = 0;
     let handle_idx = if handle { Some(n - 1) } else { None };
@@ -166,6 +185,8 @@ fn run<E: Enf>(mk: impl Fn(&tokio::runtime::Runtime) -> E, threads: usize, write
                 break;
             }
             if Instant::now() > deadline {
+                stop.store(true, Ordering::SeqCst);
+                HUNG.store(true, Ordering::SeqCst);
                 return "HANG".to_string();
             }
             std::thread::sleep(Duration::from_millis(2));
@@ -191,7 +212,7 @@ pub fn run_stress(toks: &[&str]) -> String {
     let threads: usize = toks[1].parse().unwrap();
     let cached = toks[2] == "1";
     let writer = toks[3] == "1";
-    let handle = toks[4] == "1";
+    let handle: u8 = toks[4].parse().unwrap();
     let seed: u64 = toks[5].parse().unwrap();
     let iters: usize = toks[6].parse().unwrap();
     let base = "p, alice, data1, read\np, bob, data1, write\ng, bob, admin\n";
